@@ -417,6 +417,7 @@ func c05Shapes() []*E {
 	// long sequences (code paths that switch strategy above some length), with hashable and
 	// unhashable elements
 	// typed nil pointers to a struct and to a map, a struct whose pointer field is nil / set
+	base = append(base, ZT(Hash(nil, nil), "nilptrtime"), ZT(Hash(nil, nil), "nilptrdur"), ZT(Hash(nil, nil), "nilptrstringer"), ZT(Hash(nil, nil), "nilptrlist"))
 	base = append(base, ZT(Hash(nil, nil), "nilptrstruct"), ZT(Hash(nil, nil), "nilptrmap"), ZT(Hash(nil, nil), "outer"), ZT(Hash([]string{"Author"}, []*E{Str("au")}), "outer"))
 	// sequences whose element type is an interface (other than the empty one behind a plain list),
 	// named, an array, or itself a collection
@@ -450,8 +451,14 @@ var c05BinaryExprs = []string{"x + y", "x - y", "x * y", "x / y", "x % y", "x ^ 
 	"x|merge(y)", "x|default(y)", "x|join(y)", "x|split(y)", "x|slice(y)", "x|slice(0, y)", "x|slice(y, y)", "x[y]", "x|round(y)", "x|number_format(y)", "x|date(y)", "x|replace(y)", "x|replace(y, y)", "x|trim(y)", "x|format(y)", "x|format(y, y)",
 	"max(x, y)", "min(x, y)", "range(x, y)", "range(1, 5, y)", "range(x, y, y)", "merge(x, y)", "cycle(x, y)", "x is divisible_by(y)", "x is same_as(y)", "x is matches(y)", "date(x, y)", "random(x, y)", "x|batch(y)"}
 
+var c05ConstExprs = []string{"range(9223372036854775806, 9223372036854775807)|length", "range(9223372036854775800, 9223372036854775807, 5)|length", "range(0, 9223372036854775807, 4611686018427387904)|length",
+	"range(-9223372036854775806, -9223372036854775807, -1)|length", "range(-9223372036854775800, -9223372036854775807 - 1, -5)|length", "range(9223372036854775807, 9223372036854775807)|join(',')",
+	"range(5, 1, 0)|length", "range(1, 5, 0)|length", "range(3, 3, 0)|length", "9223372036854775807 + 1", "-9223372036854775807 - 2", "9223372036854775807 * 2", "9223372036854775807|abs", "(-9223372036854775807 - 1)|abs",
+	"'x'|slice(9223372036854775807)", "'x'|slice(-9223372036854775807, 9223372036854775807)", "[1, 2]|slice(1, 9223372036854775807)|length", "[1, 2]|batch(9223372036854775807)|length", "'ab'|format(9223372036854775807)",
+	"1|round(9223372036854775807)", "1.5|number_format(2147483647)|length < 0", "random(9223372036854775807) >= 0", "random(-9223372036854775807) <= 0", "cycle([1, 2], 9223372036854775807)", "cycle([1, 2], -9223372036854775807)"}
+
 func TestC05Shapes(t *testing.T) {
-	r := NewRec(t, "C05", "bounded exhaustive: ~125 unary expressions (every operator, filter, function and test of the core extension, attribute/index access incl. x[undefined]) x ~60 Go value shapes (nil, scalars of every width, strings, untyped and typed slices (also named ones and slices of error / Stringer / slices / maps), arrays (also of interface{}), untyped and typed maps incl. non-string keys, structs, pointers incl. nil, time, []byte, named types, Stringer), and ~50 binary expressions x all pairs of 22 representative shapes (incl. strings hostile as patterns/separators/formats and 60-element lists of scalars, lists and maps), each in print / if / for / set position; non-trivial = the value is not a map[string]interface{} / []interface{} / string / int")
+	r := NewRec(t, "C05", "bounded exhaustive: ~125 unary expressions (every operator, filter, function and test of the core extension, attribute/index access incl. x[undefined]) x ~60 Go value shapes (nil, scalars of every width, strings, untyped and typed slices (also named ones and slices of error / Stringer / slices / maps), arrays (also of interface{}), untyped and typed maps incl. non-string keys, structs, pointers incl. nil, time, []byte, named types, Stringer), and ~50 binary expressions x all pairs of 22 representative shapes (incl. strings hostile as patterns/separators/formats and 60-element lists of scalars, lists and maps), each in print / if / for / set position; 25 expressions over constants at the edges of the integer range; non-trivial = the value is not a map[string]interface{} / []interface{} / string / int")
 	defer r.Flush()
 	r.SetExhaustive()
 	shapes := c05Shapes()
@@ -463,6 +470,16 @@ func TestC05Shapes(t *testing.T) {
 			if err := checkC05Shape(c); err != nil {
 				r.FailEnumKey(t, "C05.shape", panicKey(err), c, err)
 			}
+		}
+	}
+	// expressions over constants at the edges of the integer range (a loop counter that wraps
+	// around never reaches its bound)
+	for _, ex := range c05ConstExprs {
+		c := C05ShapeCase{Expr: ex, X: Null()}
+		journal(t.Name(), c)
+		r.Case(ex, true, ex)
+		if err := checkC05Shape(c); err != nil {
+			r.FailEnumKey(t, "C05.shape", panicKey(err), c, err)
 		}
 	}
 	pairShapes := []*E{Null(), Int(0), Int(2), Int(-1), Str(""), Str("ab"), Str("3"), List(), List(Int(1), Int(2)), Hash([]string{"k"}, []*E{Int(1)}),
